@@ -94,7 +94,7 @@ def flat(d):
     return out
 
 
-def spec_map(ops):
+def spec_map(ops, return_state=False):
     """Returns the expected flat output of Corr.mrun, or None if some op has no total specification."""
     d = {}
     out = []
@@ -200,7 +200,7 @@ def spec_map(ops):
         else:
             raise ValueError(k)
         out += [0, -7] + obs + [-8] + flat(d) + [-9, 1]
-    return out
+    return (out, d) if return_state else out
 
 
 def spec_set(ops):
@@ -398,6 +398,16 @@ def gen_map_ops(rng, n, wide, excluded):
             o = (k, other)
         else:
             o = (k,)
+        if k in ('MCompare', 'MEqual') and rng.below(2):
+            # the exact current bindings (computed by the specification), inserted in another order: equal maps with
+            # different histories (their trees may differ in shape and height)
+            try:
+                _, st = spec_map(ops, return_state=True)
+                ent = sorted(st.items())
+                ent = ent[::-1] if rng.below(2) else ent[len(ent) // 2:] + ent[:len(ent) // 2]
+                o = (k, ent)
+            except Exception:
+                pass
         ops.append(o)
         # keep a rough idea of the present keys to aim operations at them
         if k == 'MIns':
